@@ -33,6 +33,7 @@ func (e *Engine) Run(fn *ssa.Function) *Result {
 		e.pushFrame(st, th, fn, nil, nil, nil)
 		e.work = []*State{st}
 	}()
+	var firstUnlisted time.Time
 	for len(e.work) > 0 {
 		if e.res.Paths >= e.Opt.MaxPaths {
 			e.res.Unwinds = append(e.res.Unwinds, fmt.Sprintf("path limit %d reached with %d states pending", e.Opt.MaxPaths, len(e.work)))
@@ -40,6 +41,22 @@ func (e *Engine) Run(fn *ssa.Function) *Result {
 		}
 		if e.Opt.StopAtFirst && len(e.res.Findings) > 0 {
 			break
+		}
+		if e.Opt.GraceAfterFinding > 0 {
+			// a counterexample that is not a listed finding decides the obligation (violated, if it
+			// replays); the exploration goes on for a while to collect other counterexamples, but a
+			// changed tree can make the remaining path space much larger than the registered one
+			if firstUnlisted.IsZero() {
+				for _, f := range e.res.Findings {
+					if !f.Known {
+						firstUnlisted = time.Now()
+						break
+					}
+				}
+			} else if time.Since(firstUnlisted) > e.Opt.GraceAfterFinding {
+				e.res.StoppedEarly = fmt.Sprintf("exploration stopped %v after the first counterexample with %d states pending", e.Opt.GraceAfterFinding, len(e.work))
+				break
+			}
 		}
 		s := e.work[len(e.work)-1]
 		e.work = e.work[:len(e.work)-1]
